@@ -149,8 +149,12 @@ class Apps(object):
         self.message = 'x'
         def boomp(request, rest):
             raise ValueError(outer.message)
+        from clastic import render_basic
         routes = [('/err', raiser), ('/boom', boom), ('/ok', lambda: Response('ok')), ('/boomp/<rest*>', boomp)]
+
         self.app = {'default': Application(routes), 'debug': Application(routes, debug=True)}
+        # the same failing endpoint on a route that has a render function: an error it returns is still the response
+        self.app['rendered'] = Application([('/err', raiser, render_basic)])
         # a route added with rebind_render_error=False and no render_error of its own
         from clastic import Route
         from clastic.middleware import GzipMiddleware
@@ -424,6 +428,10 @@ def items(tier):
             # behind GzipMiddleware, asked for with Accept-Encoding: gzip, with a long and with a short detail
             for pkey in ('long', 'tag', 'plain'):
                 out.append(('gzip', 'class', (cname, 'detail', how), pkey))
+    for cname in ('Forbidden', 'NotFound', 'InternalServerError', 'Conflict'):
+        for how in ('raise', 'return'):
+            out.append(('rendered', 'class', (cname, None, how), None))
+            out.append(('rendered', 'class', (cname, 'detail', how), 'tag'))
     for cname in ('ForbiddenLatin1',):
         for how in ('raise', 'return'):
             for pkey in ('latin', 'tag', 'plain', 'long'):
